@@ -7,6 +7,8 @@
 use std::sync::{Arc, RwLock};
 
 pub enum Event {
+    /// the message loop is about to apply a notification (before it asks for write access)
+    LoopApplying,
     /// the message loop finished handling one message (normally or through the panic guard)
     LoopHandled { panicked: bool },
     /// a request worker thread was spawned; `handle` is its JoinHandle
